@@ -358,7 +358,7 @@ fn main() {
     let base_seed = args.num("--seed").unwrap_or_else(simcore::seed_from_env);
     let workers = args.num("--workers").map(|w| w as usize).unwrap_or_else(simcore::par::workers_from_env);
     let runs = args.num("--runs").unwrap_or(match tier {
-        Tier::Quick => 200_000,
+        Tier::Quick => 1_000_000,
         Tier::Thorough => 50_000_000,
     });
     let det_n = match tier {
